@@ -5,7 +5,7 @@ CONSTANTS
   MaxF = 1
   UseStop = FALSE
   Flat = FALSE
-  Pre = FALSE
+  Pre = TRUE
   Shape = "wiggle"
   MaxP = 2
   MaxW = 2
